@@ -127,6 +127,23 @@ func (c *Check) mappingHandOver() {
 						if isFieldLoad(v, "binutils.file", "base") {
 							return "base"
 						}
+						// the base handed back by an accessor (every return gives file.base there)
+						if ex, ok := v.(*ssa.Extract); ok {
+							if hc, ok := ex.Tuple.(*ssa.Call); ok && hc.Call.StaticCallee() != nil && fnInModule(hc.Call.StaticCallee()) {
+								all, nret := true, 0
+								for _, hb := range hc.Call.StaticCallee().Blocks {
+									if ret, ok := hb.Instrs[len(hb.Instrs)-1].(*ssa.Return); ok && ex.Index < len(ret.Results) {
+										nret++
+										if !isFieldLoad(ret.Results[ex.Index], "binutils.file", "base") {
+											all = false
+										}
+									}
+								}
+								if all && nret > 0 {
+									return "base"
+								}
+							}
+						}
 						return ""
 					})
 					if ok && sameLin(got, map[string]int{"addr": 1, "base": -1}) {
@@ -332,6 +349,65 @@ func (c *Check) baseReads() {
 				c.bad("C13-R2", key, p.relFile(fa.Pos()), "file.base is read in init, which "+bad)
 			}
 			continue
+		}
+		// an accessor that runs the once and hands back (base, baseErr): the base it returns is
+		// used by its callers only where the error they got with it is nil
+		if returnsFieldOfReceiver(f, "binutils.file", "baseErr") && dominatedByOnce(f, fa) {
+			ridx := -1
+			for _, b := range f.Blocks {
+				if ret, ok := b.Instrs[len(b.Instrs)-1].(*ssa.Return); ok {
+					for i, r := range ret.Results {
+						if ld, ok := r.(*ssa.UnOp); ok && ld.X == ssa.Value(fa) {
+							ridx = i
+						}
+					}
+				}
+			}
+			if ridx >= 0 {
+				bad := ""
+				calls, _ := allCallSites(p, f)
+				for _, cs := range calls {
+					call, ok := cs.(*ssa.Call)
+					if !ok || call.Referrers() == nil {
+						continue
+					}
+					g := call.Parent()
+					reach := reachUnder(g, func(cond ssa.Value) int {
+						if cmp, ok := cond.(*ssa.BinOp); ok && (isBaseErrValue(cmp.X) || isBaseErrValue(cmp.Y)) {
+							switch cmp.Op {
+							case token.NEQ:
+								return 1
+							case token.EQL:
+								return -1
+							}
+						}
+						return 0
+					})
+					for _, r := range *call.Referrers() {
+						ex, ok := r.(*ssa.Extract)
+						if !ok || ex.Index != ridx || ex.Referrers() == nil {
+							continue
+						}
+						for _, u := range *ex.Referrers() {
+							if _, isDbg := u.(*ssa.DebugRef); isDbg {
+								continue
+							}
+							if reach[u.Block()] {
+								if _, isRet := u.(*ssa.Return); isRet {
+									continue // handed on together with the error
+								}
+								bad = fnName(g) + " (" + p.relFile(u.Pos()) + ")"
+							}
+						}
+					}
+				}
+				if bad == "" {
+					c.ok("C13-R2", key, p.relFile(fa.Pos()), "file.base handed out by "+fnName(f)+" together with baseErr", "after baseOnce.Do; every caller uses the base only where the error it received is nil")
+				} else {
+					c.bad("C13-R2", key, p.relFile(fa.Pos()), "the base handed out by "+fnName(f)+" is used in "+bad+" on a path where the accompanying error is non-nil: a failed base computation yields an address translated with base 0")
+				}
+				continue
+			}
 		}
 		// a helper that is only called where the base is known to be good
 		if why := baseGoodAtCallers(p, f, 0); why == "" {
